@@ -108,7 +108,7 @@ GenC11Spec == GenC11Init /\ [][FALSE]_vars
    freedoms; the real client must decode to the values the program supplied *)
 Choice(pb, lh, em, om, od, ho, lk, mk, xj) ==
   [PadBin |-> pb, LowerHex |-> lh, EscapeMore |-> em, OmitMessage |-> om, OmitDetails |-> od, HeadersOnly |-> ho,
-   LowerKeys |-> lk, Mask |-> mk, ExtraJSON |-> xj, Encoding |-> ""]
+   LowerKeys |-> lk, Mask |-> mk, ExtraJSON |-> xj, Encoding |-> "", DropStatus |-> FALSE]
 GenPeerInit ==
   \E p \in Protos, k \in Kinds, codec \in {"proto", "json"}, pb \in BOOLEAN, lh \in BOOLEAN, om \in BOOLEAN, ho \in BOOLEAN,
      lk \in BOOLEAN, mk \in {0, 1, 2, 3}, flip \in BOOLEAN,
@@ -120,4 +120,11 @@ GenPeerInit ==
                    IF k \in {"unary", "client"} THEN <<M(101, 3)>> ELSE <<M(101, 3), M(102, 0)>>, o)
                 @@ [peer |-> "server", choices |-> c])
 GenPeerSpec == GenPeerInit /\ [][FALSE]_vars
+\* broken peers: the terminator is missing; several such calls run at once on one client (C13)
+GenDropInit ==
+  \E p \in Protos, k \in Kinds, codec \in {"proto", "json"}, n \in 1..40 :
+    InitWith(Mk(p, k, codec, 2, <<"none", <<>>>>, 0, <<>>, 0, <<>>, <<M(1, 3 + n)>>, HdrB, <<>>,
+                IF k \in {"unary", "client"} THEN <<M(101, 3)>> ELSE <<M(101, 3), M(102, 0)>>, OK)
+             @@ [peer |-> "server", choices |-> [Choice(FALSE, FALSE, FALSE, FALSE, FALSE, FALSE, FALSE, 0, FALSE) EXCEPT !.DropStatus = TRUE]])
+GenDropSpec == GenDropInit /\ [][FALSE]_vars
 =============================================================================
